@@ -14,8 +14,6 @@ import (
 const c02Marker = "mk<&'\">x"
 
 var rePlaceholder = regexp.MustCompile(`<[^<>&'"]* Value>`)
-var reAdjacentSpecials = regexp.MustCompile(`[<>]&[^a-zA-Z#]|[<>]&$`)
-
 func maxInt(a, b int) int {
 	if a > b {
 		return a
@@ -38,12 +36,9 @@ func c02Leak(out string, relaxAmp bool) string {
 	if relaxAmp {
 		// Programs using the filter tag: the chain works on already rendered text, so it can mangle the
 		// engine's own '<type Value>' placeholder (lower, phone2numeric, cut ...). A lone < or > is therefore
-		// not judged there; quotes, and angle brackets adjacent to a raw & (as in the marker), still are.
+		// not judged there (the chain can also interleave placeholder and body, e.g. join); raw quotes, which only the marker can contribute, still are.
 		if i := strings.IndexAny(s, "'\""); i >= 0 {
 			return "raw quote in filter-tag program near ..." + s[maxInt(0, i-20):minInt(len(s), i+20)] + "..."
-		}
-		if loc := reAdjacentSpecials.FindStringIndex(s); loc != nil {
-			return "raw marker material in filter-tag program near ..." + s[maxInt(0, loc[0]-20):minInt(len(s), loc[1]+20)] + "..."
 		}
 		return ""
 	}
